@@ -69,6 +69,16 @@ def scenarios(d):
         store={}, remote={REMOTE: {"type": "string"}},
         instances=[{"first": 1}, {"second": "some text"}, {"first": "x", "third": 5}],
         refs=[REMOTE]))
+    # a root document without an id, other documents stored under RELATIVE URIs with a directory, a relative reference
+    # from one of them to its neighbour, and references into the root itself before and after
+    out.append(dict(
+        name="relative-store-uris-with-directory",
+        schema={"properties": {"o": {"$ref": "schemas/order.json"}, "z": {"$ref": "#/definitions/int"}, "zz": {"$ref": "#/definitions/int"}},
+                "definitions": {"int": {"type": "integer"}}},
+        store={"schemas/order.json": {"properties": {"i": {"$ref": "item.json"}, "n": {"type": "integer"}}},
+               "schemas/item.json": {"type": "string"}}, remote={},
+        instances=[{"o": {"i": 5, "n": "x"}, "z": "s"}, {"o": {"i": "ok"}, "zz": 1}, {"z": 1, "zz": "t"}],
+        refs=["#/definitions/int", "schemas/item.json"]))
     if d >= 4:
         inner = {"anyOf": [{"$ref": OTHER + "#/definitions/str"}, {"$ref": "#/definitions/int"}],
                  "oneOf": [{"$ref": "#/definitions/int"}, {"$ref": OTHER + "#/definitions/num"}]}
